@@ -114,7 +114,8 @@ def m_flip(interp, a, axis=None):
 @model(np.empty)
 def m_empty(interp, shape, dtype=float, **kw):
     c = ctx()
-    if not contains_sym(shape):
+    if not contains_sym(shape) and np.dtype(dtype).kind in "iu":
+        # small concrete integer scratch arrays (utils.invert_permutation) stay native
         return _native(np.empty, shape, dtype=dtype, **kw)
     shape = tuple(interp.iterate(shape)) if isinstance(shape, (list, tuple)) else (shape,)
     for s in shape:
@@ -175,7 +176,7 @@ def m_pad(interp, a, pad_width, mode="constant", **kw):
     else:
         raise Unsupported(f"np.pad mode {mode}")
     shape = [b + n + e for (b, e), n in zip(pw, a.shape)]
-    src = a
+    src = a.frozen()
 
     def fn(*idx):
         inside = []
@@ -259,6 +260,7 @@ def m_concatenate(interp, arrays, axis=0, **k):
         for d in range(nd):
             if d != ax and not interp.truth(a.shape[d] == arrs[0].shape[d]):
                 raise RaiseSig(ValueError("all the input array dimensions except for the concatenation axis must match exactly"))
+    arrs = [a.frozen() for a in arrs]
     c.trust("np.concatenate: arrays laid one after the other along the axis")
     offs = [0]
     for a in arrs:
@@ -515,6 +517,7 @@ def m_dot(interp, a, b):
     if not isinstance(b, SArr):
         b = m_asarray(interp, b)
     c = ctx()
+    a, b = a.frozen(), b.frozen()
     c.trust("np.dot: sum over the last axis of a and the first (or only) axis of b (real regime)")
     k = a.shape[-1]
     if not isinstance(k, int):
